@@ -81,8 +81,10 @@ def merge(pieces):
     return out
 
 
-def templates(prog, lang):
-    """[(class name, arity, pieces, FuncInfo of the resolved __str__)]"""
+def templates(prog, lang, with_unary=False):
+    """[(class name, arity, pieces, FuncInfo of the resolved __str__)];
+    with_unary: also And(x) / Or(x) with a single operand (they can be built
+    through the constructors, not through the parsers)"""
     al = prog.alphabet(LANGS[lang])
     out = []
     for name, ci in sorted(al.items()):
@@ -99,7 +101,10 @@ def templates(prog, lang):
                        f)
             out.append((name, 0, _pieces(v, ci.short(), f), f))
             continue
-        for n in ARITY.get(name, [1, 2]):
+        ns = ARITY.get(name, [1, 2])
+        if with_unary and name in ('Or', 'And'):
+            ns = [1] + list(ns)
+        for n in ns:
             holes = [make_hole(prog, i, lang) for i in range(n)]
             v = _print(prog, ci, holes, f)
             out.append((name, n, _pieces(v, ci.short(), f), f))
